@@ -554,6 +554,7 @@ func runC15(ctx *core.Ctx, pool *par.Pool) {
 	outcomes := map[string]int{}
 	for _, cfg := range cfgs {
 		cfg := cfg
+		ctx.Share(ctx.Budget() / time.Duration(len(cfgs)))
 		var quiet []*xstate.Node
 		seenLog := map[string]bool{}
 		st := xstate.BFS(ctx, pool, xstate.Spec{Cfg: cfg, Alphabet: crashAlphabet(true), MaxDepth: depth,
@@ -606,6 +607,7 @@ func runC15(ctx *core.Ctx, pool *par.Pool) {
 			ctx.Cap("cfg %s: deadline reached, %d prefix histories without matrix", cfg.Name, skipped)
 		}
 	}
+	ctx.Unshare()
 	ctx.Set("states", total.States)
 	ctx.Set("transitions", total.Transitions)
 	ctx.Set("prefix_histories", prefixes)
